@@ -12,7 +12,7 @@ META = {
     'floors': {'pristine_ok': 10, 'mutants': 300, 'mutants_rejected_with_diagnostic': 30, 'extract_runs': 20},
     'profiles': {'quick': ('dev',), 'thorough': ('dev', 'release')},
 }
-SIZES = {'quick': 8000, 'thorough': 200000}
+SIZES = {'quick': 16000, 'thorough': 200000}
 OPTS = ['blocks', 'intrinsics', 'arguments', 'diff_switches', 'calls']
 
 def run_one(ctx, entry, data, tool, game, msg_mode, cmd, cls, mut=None):
